@@ -73,15 +73,16 @@ Closed(c) == c \in q
 StopStatus == IF g.sp = "idle" THEN S_NOT ELSE IF g.sp = "done" THEN S_DONE ELSE S_RUN
 
 Obs == [pool   |-> pool,
+        dial   |-> misc.dial,
         stop   |-> StopStatus,
         calls  |-> [i \in 1..Len(acts) |-> [k |-> acts[i].k, m |-> acts[i].m, st |-> cs[acts[i].k].st]],
         reopen |-> misc.reopen]
 
 \* where the goroutines are (what a goroutine dump of the real process shows)
 At == [stop |-> g.sp, bm |-> g.bmg, disp |-> g.disp, bch |-> g.bch, subh |-> g.subh,
-       blkh |-> g.blkh, cfh |-> g.cfh]
+       blkh |-> g.blkh, cfh |-> g.cfh, rs |-> cs[K_RESCAN].pc]
 
-NoAt == [stop |-> "", bm |-> "", disp |-> "", bch |-> "", subh |-> "", blkh |-> "", cfh |-> ""]
+NoAt == [stop |-> "", bm |-> "", disp |-> "", bch |-> "", subh |-> "", blkh |-> "", cfh |-> "", rs |-> ""]
 A(op, k, m, cls, res) == [op |-> op, k |-> k, m |-> m, cls |-> cls, res |-> res,
                           at |-> IF op = "Stop" THEN At' ELSE NoAt]
 I(op) == A(op, 0, 0, 0, "ok")
@@ -380,10 +381,15 @@ GetBlockRet ==
   /\ \/ /\ err["gb"] # "none"
         /\ cs' = Return(K_GETBLOCK, ClassOf(err["gb"]))
         /\ err' = [err EXCEPT !["gb"] = "none"]
+        /\ UNCHANGED bat
      \/ /\ Closed("S") /\ err["gb"] = "none"
         /\ cs' = Return(K_GETBLOCK, C_SHUT)
+        /\ UNCHANGED <<err, bat>>
+     \/ /\ bat["gb"] = "sub" /\ err["gb"] = "none"       \* :805-831 unknown header / cache hit: no query
+        /\ cs' = Return(K_GETBLOCK, C_LEGIT)
+        /\ bat' = [bat EXCEPT !["gb"] = "none"]
         /\ UNCHANGED err
-  /\ UNCHANGED <<pool, q, g, bat, tries, w, mtx, ux, bc, sb, acts, misc>>
+  /\ UNCHANGED <<pool, q, g, tries, w, mtx, ux, bc, sb, acts, misc>>
   /\ Finish(A("Ret", K_GETBLOCK, 0, cs'[K_GETBLOCK].st, "ok"))
 
 \* query.go:726 s.mtxCFilter.Lock() - not selectable
@@ -394,6 +400,13 @@ GetCFLock ==
   /\ bat' = [bat EXCEPT !["cf"] = "sub"]
   /\ UNCHANGED <<pool, q, g, err, tries, w, ux, bc, sb, acts, misc>>
   /\ Finish(I("GetCFLock"))
+
+\* query.go:707-722 served from the cache / the database: no lock, no query
+GetCFHit ==
+  /\ Pending(K_GETCF) /\ Pc(K_GETCF) = "lock"
+  /\ cs' = Return(K_GETCF, C_LEGIT)
+  /\ UNCHANGED <<pool, q, g, bat, err, tries, w, mtx, ux, bc, sb, acts, misc>>
+  /\ Finish(A("Ret", K_GETCF, 0, C_LEGIT, "ok"))
 
 \* query.go:768
 GetCFRet ==
@@ -655,7 +668,7 @@ CfhWoken(next) ==
   /\ IF Closed("BM")
      THEN next = "exited" /\ UNCHANGED bat
      ELSE \/ next = "cond" /\ UNCHANGED bat
-          \/ next = "qall" /\ SyncC /\ UNCHANGED bat
+          \/ next = "qall" /\ (SyncC \/ SyncH) /\ UNCHANGED bat
           \/ next = "cpq"  /\ SyncC /\ bat["ch"] = "none" /\ err["ch"] = "none"
              /\ bat' = [bat EXCEPT !["ch"] = "sub"]
   /\ g' = G("cfh", next)
@@ -669,7 +682,7 @@ CfhQallEnd(next) ==
   /\ g.cfh = "qall"
   /\ \/ next = "retry" /\ UNCHANGED bat
      \/ next = "check" /\ UNCHANGED bat
-     \/ next = "getblk" /\ bat["cg"] = "none" /\ err["cg"] = "none"
+     \/ next = "getblk" /\ SyncC /\ bat["cg"] = "none" /\ err["cg"] = "none"
         /\ bat' = [bat EXCEPT !["cg"] = "sub"]
   /\ g' = G("cfh", next)
   /\ UNCHANGED <<err, sb>> /\ BmFrame
@@ -815,7 +828,7 @@ Init ==
            squit |-> {}]
   /\ acts = <<>>
   /\ cs = [k \in AllKinds |-> [st |-> C_NONE, pc |-> "off"]]
-  /\ misc = [pdisc |-> FALSE, reopen |-> R_NOT, rsn |-> 0]
+  /\ misc = [pdisc |-> FALSE, reopen |-> R_NOT, rsn |-> 0, dial |-> IF g.dial = "dialing" THEN 1 ELSE 0]
   /\ abs = AbsInit
   /\ act = [op |-> "Init", k |-> 0, m |-> 0, cls |-> 0, res |-> "ok", at |-> NoAt]
   /\ viol = {}
@@ -832,7 +845,7 @@ Internal ==
   \/ DispWake \/ DispQuit
   \/ \E r \in {"ok", "timeout", "disc", "cancel"} : WorkerEnd(r)
   \/ WorkerQuit
-  \/ GetBlockRet \/ GetCFLock \/ GetCFRet
+  \/ GetBlockRet \/ GetCFLock \/ GetCFHit \/ GetCFRet
   \/ GetUtxoRet \/ BmSignal \/ BmWake \/ BmTop \/ BmCfLock
   \/ \E b \in BOOLEAN : BmGot(b)
   \/ SendTxSubmit \/ BchBcastEnd \/ SendTxRet \/ BchRebroadcast \/ RbEnd \/ BchQuit \/ BchCancelSub
@@ -951,6 +964,6 @@ State == <<pool>>
          \o [i \in 1..Len(acts) |-> 10 * acts[i].k + acts[i].m]
          \o <<99>>
          \o [i \in 1..7 |-> 100 * cs[i].st + Ix(PCS, cs[i].pc)]
-         \o <<B2I(misc.pdisc), misc.reopen, misc.rsn, B2I(abs.stopped)>>
+         \o <<B2I(misc.pdisc), misc.reopen, misc.rsn, misc.dial, B2I(abs.stopped)>>
 View  == <<pool, q, g, bat, err, tries, w, mtx, ux, bc, sb, acts, cs, misc, abs>>
 =============================================================================
